@@ -105,6 +105,12 @@ def normalise_program(trees: Dict[str, ast.Module], pkgs: Set[str]) -> None:
     _inline_private_tables(trees)
     for m, t in trees.items():
         if not (".tests" in m or m.endswith("tests")):
+            ho.empty_yield_from(t)
+            ho.double_negation(t)
+            ho.split_tuple_assign(t)
+            ho.iterator_aliases(t)
+            ho.tail_return_to_break(t)
+            ho.hoist_next_in_tests(t)
             ho.loop_target_unpack(t)
             ho.unroll_constant_loops(t)
             ho.constant_getattr(t)
@@ -657,6 +663,18 @@ def _helpers_to_closures(tree: ast.Module, trees: Dict[str, ast.Module]) -> bool
     return changed
 
 
+def _is_ctor_or_annotation(n: ast.Name, top: ast.stmt, cname: str, tree: ast.Module) -> bool:
+    """The class name used as the callee of a call, or inside an annotation (not evaluated in a way that matters)."""
+    for x in ast.walk(top):
+        if isinstance(x, ast.Call) and x.func is n:
+            return True
+        if isinstance(x, (ast.arg, ast.AnnAssign)) and x.annotation is not None and any(y is n for y in ast.walk(x.annotation)):
+            return True
+        if isinstance(x, ast.FunctionDef) and x.returns is not None and any(y is n for y in ast.walk(x.returns)):
+            return True
+    return False
+
+
 def _objects_to_closures(tree: ast.Module) -> None:
     """w = _C(args) where _C is a small private class of the module (plain methods, an __init__ that only stores fields, fields never re-assigned
     by the methods) and w is used only as `w.m(...)` / `w.field` inside one function: the fields become locals of that function and the methods
@@ -665,8 +683,10 @@ def _objects_to_closures(tree: ast.Module) -> None:
     classes: Dict[str, ast.ClassDef] = {}
     for st in tree.body:
         if isinstance(st, ast.ClassDef) and st.name.startswith("_") and not st.name.startswith("__") and st.name not in anchors() and not st.decorator_list and not st.keywords \
-                and all(isinstance(b, ast.Name) and b.id == "object" for b in st.bases):
-            members = [x for x in st.body if not (isinstance(x, ast.Expr) and isinstance(x.value, ast.Constant))]
+                and all(isinstance(b, ast.Name) and b.id == "object" for b in st.bases) and not any(
+                    isinstance(n, ast.Name) and n.id == st.name for x in tree.body if x is not st for n in ast.walk(x) if not _is_ctor_or_annotation(n, x, st.name, tree)):
+            members = [x for x in st.body if not (isinstance(x, ast.Expr) and isinstance(x.value, ast.Constant))
+                       and not (isinstance(x, ast.Assign) and len(x.targets) == 1 and isinstance(x.targets[0], ast.Name) and x.targets[0].id == "__slots__")]
             if members and all(isinstance(x, ast.FunctionDef) and not x.decorator_list and x.args.args and not x.args.vararg and not x.args.kwarg for x in members) \
                     and all(x.name == "__init__" or not (x.name.startswith("__") and x.name.endswith("__")) for x in members):
                 classes[st.name] = st
@@ -678,6 +698,7 @@ def _objects_to_closures(tree: ast.Module) -> None:
         init = methods.get("__init__")
         fields: List[Tuple[str, ast.expr]] = []
         ok = True
+        general_init = False
         if init is not None:
             sn = init.args.args[0].arg
             for x in _doc_stripped(init.body):
@@ -686,12 +707,29 @@ def _objects_to_closures(tree: ast.Module) -> None:
                 elif isinstance(x, ast.Assign) and len(x.targets) == 1:
                     tgt, val = x.targets[0], x.value
                 else:
-                    ok = False
+                    general_init = True
                     break
                 if not (isinstance(tgt, ast.Attribute) and isinstance(tgt.value, ast.Name) and tgt.value.id == sn) or any(isinstance(n, ast.Name) and n.id == sn for n in ast.walk(val)):
-                    ok = False
+                    general_init = True
                     break
                 fields.append((tgt.attr, val))
+            if general_init:
+                # any __init__ that uses self only as self.<x>, returns nothing and defines nothing: its body is spliced where the object is
+                # created, every self.<field> a local
+                fields = []
+                seen_f: List[str] = []
+                pars = {}
+                for n in ast.walk(init):
+                    for c in ast.iter_child_nodes(n):
+                        pars[id(c)] = n
+                for n in ast.walk(init):
+                    if isinstance(n, ast.Name) and n.id == sn and not isinstance(pars.get(id(n)), ast.Attribute):
+                        ok = False
+                    if isinstance(n, (ast.Return, ast.Yield, ast.YieldFrom, ast.FunctionDef, ast.Lambda, ast.ClassDef, ast.Nonlocal, ast.Global)) and n is not init:
+                        ok = False
+                    if isinstance(n, ast.Attribute) and isinstance(n.value, ast.Name) and n.value.id == sn and isinstance(n.ctx, ast.Store) and n.attr not in seen_f:
+                        seen_f.append(n.attr)
+                fields = [(f_, None) for f_ in seen_f]
             if init.args.defaults or init.args.kwonlyargs:
                 ok = False
         fnames = [f for f, _ in fields]
@@ -705,7 +743,7 @@ def _objects_to_closures(tree: ast.Module) -> None:
                 if isinstance(n, ast.Name) and n.id == sn:
                     pass
                 if isinstance(n, ast.Attribute) and isinstance(n.value, ast.Name) and n.value.id == sn:
-                    if isinstance(n.ctx, (ast.Store, ast.Del)) or (n.attr not in fnames and n.attr not in methods):
+                    if isinstance(n.ctx, ast.Del) or (n.attr not in fnames and n.attr not in methods) or (isinstance(n.ctx, ast.Store) and n.attr not in fnames):
                         ok = False
                 if isinstance(n, (ast.Nonlocal, ast.Global, ast.Yield, ast.YieldFrom, ast.Await, ast.FunctionDef)) and n is not m:
                     if isinstance(n, (ast.Nonlocal, ast.Global)):
@@ -719,7 +757,7 @@ def _objects_to_closures(tree: ast.Module) -> None:
                 if isinstance(n, ast.Name) and n.id == sn and not isinstance(parents.get(id(n)), ast.Attribute):
                     ok = False
         if ok:
-            info[cname] = (init, fields, methods)
+            info[cname] = (init, fields, methods, general_init)
     if not info:
         return
     # the class may only be instantiated (its name appears nowhere else: no isinstance, no annotation that matters at run time is affected)
@@ -747,7 +785,7 @@ def _objects_to_closures(tree: ast.Module) -> None:
                     and st.value.func.id in info and block is fn.body):
                 continue
             w = st.targets[0].id
-            init, fields, methods = info[st.value.func.id]
+            init, fields, methods, general_init = info[st.value.func.id]
             all_names = {n.id for n in ast.walk(fn) if isinstance(n, ast.Name)} | {a.arg for a in ast.walk(fn) if isinstance(a, ast.arg)}
             stores = sum(1 for n in ast.walk(fn) if isinstance(n, ast.Name) and n.id == w and isinstance(n.ctx, (ast.Store, ast.Del)))
             if stores != 1 or w in _params_of(fn):
@@ -765,10 +803,7 @@ def _objects_to_closures(tree: ast.Module) -> None:
                     good = False
                     break
                 if par.attr in methods and par.attr != "__init__":
-                    g = parents.get(id(par))
-                    if not (isinstance(g, ast.Call) and g.func is par):
-                        good = False
-                        break
+                    pass  # called, or handed on as a function value: the nested function either way
                 elif par.attr not in fnames:
                     good = False
                     break
@@ -798,7 +833,13 @@ def _objects_to_closures(tree: ast.Module) -> None:
                     pre.append(ast.copy_location(ast.Assign(targets=[ast.Name(id=tmp, ctx=ast.Store())], value=a), st))
                     pmap[q] = ast.Name(id=tmp, ctx=ast.Load())
             fmap: Dict[str, ast.expr] = {}
-            for f_, val in fields:
+            if general_init:
+                for f_, _v in fields:
+                    loc = f"{w}_{f_.lstrip('_')}"
+                    if loc in all_names:
+                        good = False
+                    fmap[f_] = ast.Name(id=loc, ctx=ast.Load())
+            for f_, val in ([] if general_init else fields):
                 v2 = _Subst(pmap, {}).visit(copy.deepcopy(val))
                 if isinstance(v2, ast.Constant) or (isinstance(v2, ast.Name) and v2.id in _params_of(fn)):
                     fmap[f_] = v2  # the field is the caller's own (never re-assigned) value
@@ -819,24 +860,41 @@ def _objects_to_closures(tree: ast.Module) -> None:
             if not good:
                 continue
             defs: List[ast.stmt] = []
+            init_body: List[ast.stmt] = []
             for mname, m in methods.items():
-                if mname == "__init__":
+                if mname == "__init__" and not general_init:
                     continue
                 sn = m.args.args[0].arg
                 nf = copy.deepcopy(m)
-                nf.name = mnames[mname]
+                nf.name = mnames.get(mname, mname)
                 nf.args.args = nf.args.args[1:]
 
                 class S(ast.NodeTransformer):
                     def visit_Attribute(self, node: ast.Attribute):
                         if isinstance(node.value, ast.Name) and node.value.id == sn:
                             if node.attr in fmap:
-                                return ast.copy_location(copy.deepcopy(fmap[node.attr]), node)
+                                new_ = copy.deepcopy(fmap[node.attr])
+                                if isinstance(new_, ast.Name):
+                                    new_.ctx = type(node.ctx)()
+                                return ast.copy_location(new_, node)
                             if node.attr in mnames:
                                 return ast.copy_location(ast.Name(id=mnames[node.attr], ctx=ast.Load()), node)
                         return self.generic_visit(node)
 
+                stored_fields = sorted({fmap[n.attr].id for n in ast.walk(nf) if isinstance(n, ast.Attribute) and isinstance(n.value, ast.Name) and n.value.id == sn
+                                        and isinstance(n.ctx, ast.Store) and n.attr in fmap and isinstance(fmap[n.attr], ast.Name)})
+                if any(isinstance(n, ast.Attribute) and isinstance(n.value, ast.Name) and n.value.id == sn and isinstance(n.ctx, ast.Store) and not isinstance(fmap.get(n.attr), ast.Name) for n in ast.walk(nf)):
+                    good = False
                 S().visit(nf)
+                if mname == "__init__":
+                    # spliced: parameters replaced by the constructor's arguments
+                    loc_i = _locals_of(nf) - {v.id for v in fmap.values() if isinstance(v, ast.Name)}
+                    if loc_i & all_names:
+                        good = False
+                    init_body = [_Subst(pmap, {}).visit(x) for x in _doc_stripped(nf.body)]
+                    continue
+                if stored_fields:
+                    nf.body.insert(0, ast.Nonlocal(names=stored_fields))
                 # the method's own locals must not shadow the field locals / sibling names
                 loc_m = _locals_of(nf) | set(_params_of(nf))
                 if loc_m & ({v.id for v in fmap.values() if isinstance(v, ast.Name)} | set(mnames.values())):
@@ -857,8 +915,12 @@ def _objects_to_closures(tree: ast.Module) -> None:
             for j in range(len(block)):
                 if j != i:
                     block[j] = U().visit(block[j])
-            block[i:i + 1] = pre + defs
-            for x in pre + defs:
+            # the methods are defined before __init__'s body runs (it may hand them on as values)
+            block[i:i + 1] = pre + defs + init_body
+            for x in pre + defs + init_body:
+                for y in ast.walk(x):
+                    if isinstance(y, (ast.stmt, ast.expr)) and not hasattr(y, "lineno"):
+                        ast.copy_location(y, st)
                 ast.fix_missing_locations(x)
             break  # one object per function is enough; blocks are stale now
 
@@ -1611,7 +1673,12 @@ class _Helper:
             if d is not None:
                 self.defaults[arg.arg] = d
         self.is_gen = any(isinstance(n, (ast.Yield, ast.YieldFrom)) for n in _own_nodes(node))
-        loaded = {n.id for n in ast.walk(node) if isinstance(n, ast.Name) and isinstance(n.ctx, ast.Load)}
+        # names in annotations are not evaluated when the body runs (parameter / return annotations at definition time only)
+        ann: Set[int] = set()
+        for n in ast.walk(node):
+            for x in ([n.annotation] if isinstance(n, (ast.arg, ast.AnnAssign)) and n.annotation is not None else []) + ([n.returns] if isinstance(n, ast.FunctionDef) and n.returns is not None else []):
+                ann |= {id(y) for y in ast.walk(x)}
+        loaded = {n.id for n in ast.walk(node) if isinstance(n, ast.Name) and isinstance(n.ctx, ast.Load) and id(n) not in ann}
         self.free = loaded - set(_params_of(node)) - _locals_of(node) - _BUILTINS
 
     @property
@@ -1688,6 +1755,13 @@ def _eligible(fn: ast.FunctionDef, nested: bool = False, private_class: bool = F
         if isinstance(n, ast.Call) and isinstance(n.func, ast.Name) and n.func.id == fn.name:
             return False  # recursive
     return True
+
+
+def _no_annotations(a: ast.arguments) -> ast.arguments:
+    a = copy.deepcopy(a)
+    for x in a.posonlyargs + a.args + a.kwonlyargs + ([a.vararg] if a.vararg else []) + ([a.kwarg] if a.kwarg else []):
+        x.annotation = None
+    return a
 
 
 def _nested_expr_helper(fn: ast.FunctionDef) -> bool:
@@ -2268,12 +2342,14 @@ def _inline_helpers(mod: str, tree: ast.Module, all_helpers, trees, pkgs: Set[st
                     if a.id in nested_lam:
                         src_fn = nested_lam[a.id]
                         body = _doc_stripped(src_fn.body)[0].value
-                        lam = ast.Lambda(args=copy.deepcopy(src_fn.args), body=copy.deepcopy(body))
+                        if any(isinstance(c_, ast.Call) and scope.match(c_)[0] is not None and not scope.match(c_)[0].is_expr for c_ in ast.walk(body)):
+                            return None  # its body still calls a statement helper: keep it a function, so that the helper can be spliced in
+                        lam = ast.Lambda(args=_no_annotations(src_fn.args), body=copy.deepcopy(body))
                         changed = True
                         return ast.copy_location(lam, a)
                     h = scope.by_name.get(a.id)
                     if h is not None and h.kind == "func" and h.is_expr and not h.defaults and usable(h):
-                        lam = ast.Lambda(args=copy.deepcopy(h.node.args), body=copy.deepcopy(h.body[0].value))
+                        lam = ast.Lambda(args=_no_annotations(h.node.args), body=copy.deepcopy(h.body[0].value))
                         changed = True
                         return ast.copy_location(lam, a)
                 return None
